@@ -49,6 +49,9 @@ FIXES = [
  ('C04-startimpl-assign', 'simulator.py',
   "            raise DSOLError(\"cannot start: simulator_time > run length\")\n        self._run_state = RunState.STARTING\n        if self._replication_state == ReplicationState.INITIALIZED:\n            self.fire_timed(self._simulator_time,\n                ReplicationInterface.START_REPLICATION_EVENT, None)\n            self._replication_state = ReplicationState.STARTED\n        self.fire(Simulator.STARTING_EVENT, None)\n",
   "            raise DSOLError(\"cannot start: simulator_time > run length\")\n        self._run_until_time = run_until_time\n        self._run_until_including = run_until_including\n        self._run_state = RunState.STARTING\n        if self._replication_state == ReplicationState.INITIALIZED:\n            self.fire_timed(self._simulator_time,\n                ReplicationInterface.START_REPLICATION_EVENT, None)\n            self._replication_state = ReplicationState.STARTED\n        self.fire(Simulator.STARTING_EVENT, None)\n"),
+ ('C04-init-warmup', 'simulator.py',
+  "            raise DSOLError(f\"replication {replication} not valid\")\n        self._eventlist.clear()\n",
+  "            raise DSOLError(f\"replication {replication} not valid\")\n        if not replication.warmup_sim_time >= replication.start_sim_time:\n            raise DSOLError(f\"replication {replication} has its warmup time before its start time\")\n        self._eventlist.clear()\n"),
  # C04 end_replication guard
  ('C04-endrep-guard', 'simulator.py',
   "    def end_replication(self):\n        self._replication_state = ReplicationState.ENDING\n",
